@@ -193,3 +193,68 @@ impl<'a> ast::Math<'a> {
     pub fn exprs(self) -> (r: VpIter<ast::Expr<'a>>) requires self.wf(), tree_wf(self.0)
         ensures forall|k: int| 0 <= k < r.rest().len() ==> (#[trigger] r.rest()[k]).wf() && is_child_of(r.rest()[k].node(), self.0) { unimplemented!() }
 }
+
+// ---- imports (C19) ----
+/// the name an import item binds: the last path segment of `a.b.c`, the name after `as` of `a.b as d`
+pub uninterp spec fn import_bound_name(n: &SyntaxNode) -> Seq<char>;
+/// the original (last path segment) name of a renamed item
+pub uninterp spec fn import_original_name(n: &SyntaxNode) -> Seq<char>;
+pub open spec fn is_import_item(n: &SyntaxNode) -> bool { n.kind_s() == SyntaxKind::ImportItemPath || n.kind_s() == SyntaxKind::RenamedImportItem }
+/// C19: the names bound by the items are pairwise distinct
+pub open spec fn import_names_distinct(nodes: Seq<&SyntaxNode>) -> bool {
+    forall|i: int, j: int| 0 <= i < j < nodes.len() && is_import_item(nodes[i]) && is_import_item(nodes[j]) ==> import_bound_name(nodes[i]) != import_bound_name(nodes[j])
+}
+impl<'a> ast::ImportItemPath<'a> {
+    #[verifier::external_body]
+    pub fn name(self) -> (r: ast::Ident<'a>) requires self.wf() ensures r.wf(), r.0.text_s() == import_bound_name(self.0) { unimplemented!() }
+}
+impl<'a> ast::RenamedImportItem<'a> {
+    #[verifier::external_body]
+    pub fn new_name(self) -> (r: ast::Ident<'a>) requires self.wf() ensures r.wf(), r.0.text_s() == import_bound_name(self.0) { unimplemented!() }
+    #[verifier::external_body]
+    pub fn original_name(self) -> (r: ast::Ident<'a>) requires self.wf() ensures r.wf(), r.0.text_s() == import_original_name(self.0) { unimplemented!() }
+    #[verifier::external_body]
+    pub fn path(self) -> (r: ast::ImportItemPath<'a>) requires self.wf() ensures r.wf(), is_child_of(r.0, self.0) { unimplemented!() }
+}
+pub proof fn lemma_names_distinct_skip(nodes: Seq<&SyntaxNode>, k: int)
+    requires 0 <= k < nodes.len(), import_names_distinct(nodes.subrange(0, k)), !is_import_item(nodes[k]),
+    ensures import_names_distinct(nodes.subrange(0, k + 1)),
+{
+    let a = nodes.subrange(0, k); let b = nodes.subrange(0, k + 1);
+    assert forall|i: int, j: int| 0 <= i < j < b.len() && is_import_item(b[i]) && is_import_item(b[j]) implies import_bound_name(b[i]) != import_bound_name(b[j]) by {
+        assert(b[j] == nodes[j]); assert(b[i] == nodes[i]);
+        if j < k { assert(a[i] == nodes[i] && a[j] == nodes[j]); }
+    }
+}
+pub proof fn lemma_names_distinct_extend(nodes: Seq<&SyntaxNode>, k: int)
+    requires 0 <= k < nodes.len(), import_names_distinct(nodes.subrange(0, k)),
+        is_import_item(nodes[k]) ==> forall|i: int| 0 <= i < k && is_import_item(#[trigger] nodes[i]) ==> import_bound_name(nodes[i]) != import_bound_name(nodes[k]),
+    ensures import_names_distinct(nodes.subrange(0, k + 1)),
+{
+    let a = nodes.subrange(0, k); let b = nodes.subrange(0, k + 1);
+    assert forall|i: int, j: int| 0 <= i < j < b.len() && is_import_item(b[i]) && is_import_item(b[j]) implies import_bound_name(b[i]) != import_bound_name(b[j]) by {
+        assert(b[j] == nodes[j]); assert(b[i] == nodes[i]);
+        if j < k { assert(a[i] == nodes[i] && a[j] == nodes[j]); }
+    }
+}
+/// a permutation keeps every element well formed; a comment-free sequence has no line comment to terminate
+pub proof fn lemma_sorted_wf(a: Seq<&SyntaxNode>, b: Seq<&SyntaxNode>)
+    requires
+        a.to_multiset() == b.to_multiset(),
+        forall|j: int| 0 <= j < a.len() ==> tree_wf(#[trigger] a[j]),
+        lc_followed(a),
+        b == a || forall|k: int| 0 <= k < a.len() ==> !is_comment_kind(#[trigger] a[k].kind_s()),
+    ensures
+        forall|j: int| 0 <= j < b.len() ==> tree_wf(#[trigger] b[j]),
+        lc_followed(b),
+{
+    if b != a {
+        assert forall|j: int| 0 <= j < b.len() implies tree_wf(#[trigger] b[j]) && !is_comment_kind(b[j].kind_s()) by {
+            assert(b.to_multiset().count(b[j]) > 0) by { b.to_multiset_ensures(); assert(b.contains(b[j])); }
+            a.to_multiset_ensures();
+            assert(a.contains(b[j]));
+            let i = choose|i: int| 0 <= i < a.len() && a[i] == b[j];
+            assert(tree_wf(a[i]));
+        }
+    }
+}
